@@ -202,3 +202,30 @@ Section Plain.
     exists r. split; [exact E|]. split; [exact (ovalue_nonneg c rh nets _ P')|]. intros Hfd. specialize (Lt Hfd). lia.
   Qed.
 End Plain.
+
+(* ---------- the value theorem stated on the circuits place_detailed_model returns ---------- *)
+(* F8 scope, on circuits: no polarised cell has, in c', another orientation than in c *)
+Definition same_polar_orient (c c' : circuit) : Prop :=
+  forall i k k', nth_error (cells c) i = Some k -> nth_error (cells c') i = Some k' -> c_pol k <> pANY -> c_o k' = c_o k.
+
+Lemma same_polar_frozen c d : same_polar_orient c (write_back c d) -> orient_frozen c d.
+Proof. intros H i k Hk Hp. exact (H i k _ Hk (write_back_nth_fwd c d i k Hk) Hp). Qed.
+
+Theorem place_detailed_model_hpwl c rh nets : std_design c rh -> legal c -> forall p shifts d0 c' exs,
+  from_circuit c = DOk d0 -> params_ok p = true ->
+  oracle_ok (Z.to_nat (dp_nbPasses p)) p shifts {| ps_d := d0; ps_o := init_models c nets |} ->
+  int_pins c nets -> pins_fit c rh nets ->
+  place_detailed_model c nets p shifts = ROk (c', exs) ->
+  (same_polar_orient c c' -> hpwl_circuit c' nets <= hpwl_circuit c nets) /\
+  Forall (fun e => same_polar_orient c e ->
+            hpwl_circuit e nets <= hpwl_circuit c nets /\ (same_polar_orient c c' -> hpwl_circuit c' nets <= hpwl_circuit e nets)) exs.
+Proof.
+  intros SD HL p shifts d0 c' exs Hs Hp Ho B0 PF. unfold place_detailed_model. rewrite Hs.
+  destruct (run_passes p shifts {| ps_d := d0; ps_o := init_models c nets |}) as [[s' ex]|e] eqn:R; [|discriminate].
+  intros [= <- <-]. destruct (place_detailed_value c rh nets SD HL p shifts d0 s' ex Hs Hp Ho R B0 PF) as (A & B & _).
+  split.
+  - intros H. exact (A (same_polar_frozen c _ H)).
+  - apply Forall_forall. intros e He. apply in_map_iff in He as (st & <- & Hst). intros H.
+    destruct (B st Hst (same_polar_frozen c _ H)) as [B1 B2]. split; [exact B1|].
+    intros H'. exact (B2 (same_polar_frozen c _ H')).
+Qed.
